@@ -301,8 +301,11 @@ CasesC11b(lazy) ==
   IF Bound < 2 THEN   \* a slice of the six-container shapes: selections that sit only below a list entry
        {Case(<<Shape11b(r, "n", "n", cl, dm, el)>>, NoEnv, "marks") : r \in {"f", "n"}, cl \in {"n", "f"}, dm \in MarkSet, el \in MarkSet}
   ELSE {Case(<<Shape11b(r, a, b, cl, dm, el)>>, NoEnv, "marks") : r \in MarkSet, a \in MarkSet, b \in MarkSet, cl \in MarkSet, dm \in MarkSet, el \in MarkSet}
+(* more than a dozen selected subtrees below one map, several per key: the order is the sorted walk *)
+Wide11 == M([k \in {"alpha", "bravo", "charlie", "delta", "echo", "foxtrot"} |->
+             M([j \in {"s1", "s2", "s3", "s4", "s5", "s6"} |-> Mk2("$output", True, "id", S(k \o "-" \o j))])])
 CasesC11(lazy) ==
-  CasesC11b(0) \cup
+  CasesC11b(0) \cup {Case(<<Wide11>>, NoEnv, "wide")} \cup
   {Case(<<Shape11(r, a, b, cl)>>, NoEnv, "marks") : r \in MarkSet, a \in MarkSet, b \in MarkSet, cl \in MarkSet}
   \cup {Case(<<Shape11(r, a, "n", "n"), Shape11("n", "n", b, cl)>>, NoEnv, "stream") : r \in MarkSet, a \in MarkSet, b \in MarkSet, cl \in MarkSet}
   \cup {Case(<<L(<<Single("$output", True), Single("w", Mk2("$output", True, "p", I("1"))), L(<<Single("$output", mk), I("2")>>)>>)>>, NoEnv, "lists") : mk \in {True, False}}
@@ -314,6 +317,9 @@ LawC11(cs) ==
              e == FoldRes(LAMBDA acc, d : Ok(acc \o Expected11(d)), <<>>, cs.docs).v
          IN /\ r.ok /\ SameBag(r.v, e)
             /\ \A i \in DOMAIN r.v : AllStrings(r.v[i], LAMBDA x : x # "$output")
+    [] cs.tag = "wide" ->
+         LET r == EvalS(cs.docs, NoEnv) IN
+         r.ok /\ Len(r.v) = 36 /\ \A i \in 1..35 : StrLess(Pay(At(r.v[i], "id")), Pay(At(r.v[i + 1], "id")))
     [] cs.tag = "extrakeys" -> ~EvalS(cs.docs, NoEnv).ok
     [] OTHER -> TRUE
 
@@ -479,7 +485,9 @@ Vals14 == { S("abc"), S(""), I("42"), F("1.5"), True, EmptyList, EmptyMap,
             Mk2("multi", L(<<S("p"), S("q")>>), "one", S("r")), L(<<Single("a", S("1")), Mk2("b", S(""), "c", L(<<I("1"), I("2")>>))>>),
             L(<<Single("a", S("1")), S("notamap")>>), Single("nested", Single("deep", I("1"))),
             (* list-valued entries are expanded ONE level: a list inside such a list is printed as a value *)
-            Mk2("inc", L(<<L(<<S("a"), S("b")>>), S("c")>>), "k", L(<<L(<<I("1"), I("2")>>), EmptyList, S("")>>)) }
+            Mk2("inc", L(<<L(<<S("a"), S("b")>>), S("c")>>), "k", L(<<L(<<I("1"), I("2")>>), EmptyList, S("")>>)),
+            (* doubles that need all 17 digits, the double range, and an integer beyond 2^53 *)
+            L(<<S("pi"), F("3.141592653589793"), F("1e+300"), F("1.67772175e+07"), I("9007199254740993")>>) }
 Structural == {"join", "join:,", "join: - ", "prefix:--", "prefix:", "flatten", "tolist:=", "tolist::", "values", "flags"}
 Malformed == {"join:a:b", "prefix", "prefix:a:b", "flatten:x", "tolist", "tolist:a:b", "values:x", "base64:x", "sha256:1", "json:x", "bogus", ""}
 Codecs14 == {"base64", "sha256", "json", "yaml", "toml"}
